@@ -199,12 +199,66 @@ func lockModel(acquire, shared bool) stdModel {
 				ec.oblige("lock", And(Not(ex), Not(sh)), call.Pos(), "lock acquired twice: "+name)
 			}
 			ec.st.ghost[key] = True
+			ec.lockInvariant(call, true)
 		} else {
 			ec.oblige("lock", cur, call.Pos(), "unlock of a lock not held: "+key)
+			ec.lockInvariant(call, false)
 			ec.st.ghost[key] = False
 		}
 		return nil
 	}
+}
+
+// lockInvariant: x.mu.Lock() / x.mu.Unlock() where a `lockinv T.mu(x) protects ...: inv` directive exists for the
+// struct type T of x. Acquiring: other goroutines may have changed the protected fields - they are forgotten and the
+// invariant is assumed. Releasing: the invariant is proved (it is what the next holder assumes).
+func (ec *evalCtx) lockInvariant(call *ast.CallExpr, acquire bool) {
+	if ec.e().cs == nil || len(ec.e().cs.LockInvs) == 0 {
+		return
+	}
+	sel, ok := ast.Unparen(call.Fun.(*ast.SelectorExpr).X).(*ast.SelectorExpr)
+	if !ok {
+		return
+	}
+	t := ec.info.TypeOf(sel.X)
+	if p, ok := t.Underlying().(*types.Pointer); ok {
+		t = p.Elem()
+	}
+	nt, ok := t.(*types.Named)
+	if !ok || nt.Obj().Pkg() == nil {
+		return
+	}
+	li := ec.e().cs.LockInvs[nt.Obj().Pkg().Path()+"."+nt.Obj().Name()+"."+sel.Sel.Name]
+	if li == nil {
+		return
+	}
+	owner := ec.eval(sel.X)
+	pkg := ec.e().pkgs[li.Pkg]
+	if acquire {
+		p, ok := owner.(*PtrV)
+		if !ok {
+			panic(unsupported("lockinv: the owner of %s is not held through a pointer", exprText(sel)))
+		}
+		sv, ok := ec.st.heap[p.Obj].(*StructV)
+		if !ok {
+			panic(unsupported("lockinv: opaque owner object"))
+		}
+		st := nt.Underlying().(*types.Struct)
+		for _, f := range li.Protects {
+			for i := 0; i < st.NumFields(); i++ {
+				if st.Field(i).Name() == f {
+					sv = sv.With(f, ec.e().freshValue(ec.st, "locked."+f, st.Field(i).Type(), false))
+				}
+			}
+		}
+		ec.st.heap[p.Obj] = sv
+		sc := &evalCtx{fc: ec.fc, st: ec.st, spec: true, scope: map[string]Value{li.Param: owner}, pkg: pkg, noLocals: true, pol: -1}
+		ec.st.Assume(sc.evalBool(li.Expr))
+		ec.e().notes = appendUnique(ec.e().notes, "lock invariant of "+li.Type+"."+li.Mutex+" ("+li.Text+"): assumed when the lock is acquired (the protected fields "+strings.Join(li.Protects, ", ")+" are otherwise unknown then), proved when it is released; the protected fields are only touched with the lock held in the functions under contract")
+		return
+	}
+	sc := &evalCtx{fc: ec.fc, st: ec.st, spec: true, scope: map[string]Value{li.Param: owner}, pkg: pkg, noLocals: true, pol: 1}
+	ec.fc.oblige(ec.st, "lockinv", sc.evalBool(li.Expr), call.Pos(), "lock invariant of "+li.Type+"."+li.Mutex+" at "+exprText(call.Fun)+": "+li.Text)
 }
 
 func recvStruct(ec *evalCtx, recv Value) (*StructV, func(*StructV)) {
